@@ -12,8 +12,10 @@ RULE = ("byte strings: valid encodings (3 framings) mutated at every field, blin
 def main(run):
     run.cov["trusted_base"] = vlib.TRUSTED_COMMON + [
         "model: Wire/OptCodec.v Wire/Pdu.v (parser transcribed from coap_opt_parse, "
-        "coap_pdu_parse_header, coap_pdu_parse_opt; per-option limit tables transcribed by hand "
-        "and swept against the code for all option numbers)"]
+        "coap_pdu_parse_header, coap_pdu_parse_opt; per-option limit tables transcribed by hand, "
+        "swept against the code for all option numbers, and proved equal to the RFC tables of "
+        "Wire/RfcLimits.v - theorem C03_limits_are_the_rfc_limits; RfcLimits.v itself is read "
+        "off RFC 7252 5.10, 7641, 7959, 7967, 8323 5, 8613, 8768, 8974, 9175, 9177 by hand)"]
     run.assumptions = ["for TCP/TLS the Len prefix is checked by the stream reader (C05), coap_pdu_parse itself ignores it",
                        "on WebSocket the Len nibble of the first byte is ignored by the receiver"]
     run.prove()
